@@ -21,6 +21,8 @@ type SynOpts struct {
 	Terms      []gr.Sym // use exactly these terminals (nil: draw names)
 	NoEmpty    bool     // no alternative is the keyword empty
 	NoSplit    bool     // every nonterminal is defined by one rule
+	RRTwin     bool     // add a nonterminal with the same body as an existing alternative (reduce/reduce conflict), declared at a random place
+	SplitMore  bool     // split definitions more often
 }
 
 var ntNames = []string{"A", "B", "C", "D", "E", "F", "G", "H"}
@@ -56,7 +58,26 @@ func (b *synB) family(depth int) gr.Sym {
 	elem := func() gr.Sym { return b.family(depth - 1) }
 	var alts []gr.Alt_
 	body := func(s ...gr.Sym) gr.Alt_ { return gr.Alt_{Syms: s} }
-	switch rapid.IntRange(0, 12).Draw(b.t, "family") {
+	switch rapid.IntRange(0, 13).Draw(b.t, "family") {
+	case 13: // a phrase, and next to it an inlined copy of its beginning that goes
+		// on differently: states whose kernels contain one another
+		x := elem()
+		k1, k2, t1 := b.term(), b.term(), b.term()
+		alts = []gr.Alt_{body(k1, x), body(k2, x)}
+		if x.Kind == gr.SNT {
+			for _, p := range b.prods {
+				if p.Name == x.Name && len(p.Alts) > 0 && !p.Alts[0].Empty && len(p.Alts[0].Syms) >= 1 {
+					pre := p.Alts[0].Syms
+					if len(pre) > 1 {
+						pre = pre[:len(pre)-1]
+					}
+					syms := append([]gr.Sym{k2}, pre...)
+					syms = append(syms, t1)
+					alts = append(alts, gr.Alt_{Syms: append([]gr.Sym{}, syms...)})
+					break
+				}
+			}
+		}
 	case 10: // something followed by a possibly empty list: lookaheads of the first
 		// part come from FIRST of a nullable, recursive nonterminal
 		x := elem()
@@ -279,9 +300,70 @@ func SynGrammar(o SynOpts) *rapid.Generator[*gr.Grammar] {
 		for i := range b.prods {
 			dedupeAlts(&b.prods[i])
 		}
+		if o.RRTwin && b.nNT < len(ntNames) && rapid.IntRange(0, 1).Draw(t, "rrTwin") == 0 {
+			// X : … | body | … becomes ambiguous with Z : body wherever X is used:
+			// which reduction wins is decided by the production numbers alone
+			type use struct{ p, a, s int }
+			var uses []use
+			for pi := range b.prods {
+				for ai := range b.prods[pi].Alts {
+					for si, sy := range b.prods[pi].Alts[ai].Syms {
+						if sy.Kind == gr.SNT {
+							uses = append(uses, use{pi, ai, si})
+						}
+					}
+				}
+			}
+			if len(uses) > 0 {
+				u := uses[rapid.IntRange(0, len(uses)-1).Draw(t, "twinUse")]
+				xName := b.prods[u.p].Alts[u.a].Syms[u.s].Name
+				var bodies [][]gr.Sym
+				for _, p := range b.prods {
+					if p.Name == xName {
+						for _, a := range p.Alts {
+							if !a.Empty && !a.Error && len(a.Syms) > 0 {
+								bodies = append(bodies, a.Syms)
+							}
+						}
+					}
+				}
+				if len(bodies) > 0 {
+					body := bodies[rapid.IntRange(0, len(bodies)-1).Draw(t, "twinBody")]
+					zName := ntNames[b.nNT]
+					b.nNT++
+					// fillers push the production numbers into two digits
+					nFill := rapid.IntRange(0, 6).Draw(t, "fillers")
+					var extra []gr.Prod
+					for f := 0; f < nFill && b.nNT < len(ntNames); f++ {
+						extra = append(extra, gr.Prod{Name: ntNames[b.nNT], Alts: []gr.Alt_{{Syms: []gr.Sym{b.term()}}}})
+						b.nNT++
+					}
+					z := gr.Prod{Name: zName, Alts: []gr.Alt_{{Syms: append([]gr.Sym{}, body...)}}}
+					// the use site gets a sibling alternative with Z in place of X
+					orig := b.prods[u.p].Alts[u.a]
+					cp := gr.Alt_{Syms: append([]gr.Sym{}, orig.Syms...)}
+					cp.Syms[u.s] = nt(zName)
+					b.prods[u.p].Alts = append(b.prods[u.p].Alts, cp)
+					at := rapid.IntRange(1, len(b.prods)).Draw(t, "twinPos")
+					np := append([]gr.Prod{}, b.prods[:at]...)
+					if rapid.Bool().Draw(t, "fillersFirst") {
+						np = append(np, extra...)
+						np = append(np, z)
+					} else {
+						np = append(np, z)
+						np = append(np, extra...)
+					}
+					b.prods = append(np, b.prods[at:]...)
+				}
+			}
+		}
 		// a nonterminal may be defined by several rules with other rules in
 		// between (gocc's BNF accepts that): split one definition
-		if !o.NoSplit && len(b.prods) >= 2 && rapid.IntRange(0, 4).Draw(t, "splitDef") == 0 {
+		splitP := 4
+		if o.SplitMore {
+			splitP = 1
+		}
+		if !o.NoSplit && len(b.prods) >= 2 && rapid.IntRange(0, splitP).Draw(t, "splitDef") == 0 {
 			var cands []int
 			for i := range b.prods {
 				if len(b.prods[i].Alts) >= 2 {
